@@ -38,8 +38,8 @@ CHARTS = {
     "holds": ["dance-single", "", "Easy", "3", "", "2000\n0100\n3000\n0010\n,\n00M0\n0000\n1[3]000\n0000"],
 }
 CHART_LISTS = [[], ["blank"], ["meta"], ["holds"], ["blank", "meta"], ["holds", "blank"]]
-SIM_TEMPLATES = ["none", "empty", "blank", "edited", "withchart"]
-CHART_TEMPLATES = ["none", "empty", "blank", "extra", "emptytiming"]
+SIM_TEMPLATES = ["none", "empty", "bare", "blank", "edited", "withchart"]
+CHART_TEMPLATES = ["none", "empty", "blank", "extra", "emptytiming", "notes2"]
 
 
 def source_model(opt_idx, mand, chart_list, rotate=0):
@@ -58,6 +58,8 @@ def sim_template(kind):
         return None
     if kind == "empty":
         return SSCSimfile(string="")
+    if kind == "bare":
+        return SSCSimfile()  # no input at all
     t = SSCSimfile.blank()
     if kind == "edited":
         t["TITLE"] = "tpl"
@@ -95,6 +97,10 @@ def chart_template(kind):
         c["STOPS"] = ""
         c["WARPS"] = ""
         c["BPMS"] = ""
+    if kind == "notes2":
+        # the template spells its (placeholder) note data with the alias key
+        c["NOTES2"] = "2222\n2222\n2222\n2222\n"
+        return c
     c["NOTES"] = ""
     return c
 
@@ -262,7 +268,7 @@ def template_pairs(level):
     if level == "full":
         return [(s, c) for s in SIM_TEMPLATES for c in CHART_TEMPLATES]
     return [("none", "none"), ("empty", "empty"), ("blank", "extra"), ("edited", "blank"), ("withchart", "none"), ("empty", "extra"),
-            ("blank", "emptytiming"), ("edited", "emptytiming")]
+            ("blank", "emptytiming"), ("edited", "emptytiming"), ("bare", "notes2"), ("bare", "none"), ("blank", "notes2")]
 
 
 def explore_shard(acc, shard):
@@ -375,8 +381,8 @@ def explore(run):
     acc = run.acc
     run.rule = (
         f"construction tree over subsets of <= {max_opt} of {len(OPTIONAL)} optional source properties (incl. ANIMATIONS alias, SSC-only keys already present, unknown and key-only keys) on top of OFFSET/BPMS/STOPS in 2 spellings each, "
-        f"x chart lists {CHART_LISTS} x simfile templates {SIM_TEMPLATES} x chart templates {CHART_TEMPLATES} (full template product for small subsets, 8 pairs otherwise); "
-        "negative BPM/stop sources x templates; the corpus SM file x all 25 template pairs. Non-trivial = source with charts and a caller template."
+        f"x chart lists {CHART_LISTS} x simfile templates {SIM_TEMPLATES} x chart templates {CHART_TEMPLATES} (full template product for small subsets, 11 pairs otherwise); "
+        "negative BPM/stop sources x templates; the corpus SM file x all 36 template pairs. Non-trivial = source with charts and a caller template."
     )
     run.assumptions = [
         "mc/models/convert.py states the expected result; the blank templates' content is read from the library",
